@@ -312,6 +312,11 @@ class Driver:
             if isinstance(i, list):
                 i = tuple(i)
             return a[i]
+        if op == "copyrow":
+            a = self.opnd(st["a"])
+            row = a[self.opnd(st["src"])]
+            a[st["dst"]] = row
+            return None
         if op == "setitem":
             a = self.opnd(st["a"])
             i = self.opnd(st["i"])
